@@ -30,6 +30,8 @@ ok = subprocess.run(["git", "-C", "/repo", "apply", "--check", os.path.join(work
 res = {"demo_unchanged_exit": rc0, "patch_applies": ok.returncode == 0, "applies_msg": ok.stderr[-200:]}
 if ok.returncode == 0:
     subprocess.run(["git", "-C", "/repo", "apply", os.path.join(work, "patch.diff")], check=True)
+    shutil.rmtree("/tmp/evidence_backup", ignore_errors=True)
+    shutil.copytree("/verif/evidence", "/tmp/evidence_backup")   # evidence must come from clean-tree runs only
     try:
         b = subprocess.run(["go", "build", "./..."], cwd="/repo", env=env, capture_output=True, text=True)
         t = subprocess.run("go test -vet=off -count=1 ./... 2>&1 | grep -E '^(FAIL|ok|---)' | grep -v 'no test files' | grep FAIL", shell=True, cwd="/repo", env=env, capture_output=True, text=True)
@@ -53,6 +55,8 @@ if ok.returncode == 0:
         subprocess.run(["git", "-C", "/repo", "checkout", "--", "."], check=True)
         subprocess.run(["git", "-C", "/repo", "clean", "-fdq"], check=False)
         subprocess.run("rm -f /verif/replays/*", shell=True)
+        shutil.rmtree("/verif/evidence", ignore_errors=True)
+        shutil.copytree("/tmp/evidence_backup", "/verif/evidence")
 meta = json.load(open(os.path.join(dst, "meta.json")))
 meta["confirmation"] = res
 json.dump(meta, open(os.path.join(dst, "meta.json"), "w"), indent=1)
